@@ -87,3 +87,8 @@ TEXT["C19"] = {"technique": "property-based testing (rapidcheck): model of the d
                "level": "For generated problems, flags, cost programs, step sizes, both overloads and both workspace modes the result fields are compared with a re-enactment of the procedure (analytic gradient bitwise, numerical gradient, norms), the workspace state after the call is compared bitwise with a plain evaluation, "
                         "correct functors must be accepted and functors with a single wrong gradient component (effect 30x / 1000x the tolerance) must be rejected.",
                "note": _BASE_NOTE + " Tolerances are generated relative to what the helper's own central differences can resolve at that point (a finite-difference self-check cannot certify more); the default 1e-4 is used wherever it is resolvable."}
+TEXT["C12"] = {"technique": "property-based testing (rapidcheck) with harness-owned executors: exhaustive permutation schedules for small N, generated thread partitions, OpenMP; ThreadSanitizer build for concurrent evaluation (schedule owned by the harness, report = violation)",
+               "level": "The executor is user-supplied, so the harness owns the schedule: every permutation of the segment order (N<=5), generated thread partitions and the bundled OpenMP executor must reproduce the serial cost, gradient and workspace spline bit for bit. "
+                        "A ThreadSanitizer build runs generated concurrent evaluations on one optimizer with per-thread workspaces, with and without a prior single-threaded call; any race report or any thread result differing from the sequential call is a violation.",
+               "note": _BASE_NOTE + " TSan replaces ASan/UBSan for the race half. The defect this check found on the pinned tree (F2) is repaired by a 'fix:' commit in /repo and kept as a regression case."}
+EXTRA_ENGINES.append({"name": "ThreadSanitizer", "path": "harness/src/opt_sched.cpp", "serves_properties": ["C12"], "kind_free_text": "clang -fsanitize=thread build of the concurrent-evaluation half of C12, driven by the same rapidcheck front end"})
